@@ -29,7 +29,7 @@ var engines = map[string]engine{
 	"C11": outputs.Check,
 	"C12": cancel.Check,
 	"C14": contexts.Check,
-	"C15": loader.CheckC15, "C17": loader.CheckC17, "C18": loader.CheckC18,
+	"C15": loader.CheckC15, "C16": loader.CheckC16, "C17": loader.CheckC17, "C18": loader.CheckC18,
 	"C13": timed.Check,
 }
 
